@@ -7,7 +7,7 @@ SPEC = {
     "streams": [{"name": "idhash", "quick": 400, "thorough": 12000}],
     "rule": "cases: `tx <era> <cbor>` (+ `datums`, `scripts`, `inline`: hashes of witness-set datums, native scripts, inline datums), `block <cbor>`, "
             "`header <wrapper-tag> <cbor>`, `datum <cbor>` / `script <cbor>` (KeepRaw<PlutusData> / KeepRaw<NativeScript> decoded stand-alone, spans sliced out of the corpus transactions). Corpus: every test_data/*.tx, *.block (+ each block's header span and first 2 (thorough 6) transactions), "
-            "*.header; genesis.block (epoch boundary) and a small synthetic epoch-boundary block; every 400th (thorough: 8th) block of the three immutable-db chunks. Mutants (the `quick`/`thorough` count): the same items after 1..3 "
+            "*.header; genesis.block (epoch boundary) and a small synthetic epoch-boundary block; every 400th (thorough: 8th) block of the three immutable-db chunks. Systematic mutants: every single-site to-indef / to-def / widen-head / chunk-string mutant (first 8, thorough 64, sites) of every stand-alone datum and native script; pool datums and their single-site mutants spliced as inline datums into corpus transactions. Random mutants (the `quick`/`thorough` count): the same items after 1..3 "
             "structural CBOR mutations at the concrete-syntax level (definite<->indefinite containers, wider-than-minimal heads on ints / lengths / tags, "
             "swapped map entries, byte strings split into chunks, set tag 258 dropped), kept only if pallas still decodes them. distinct = sha1 of op text; "
             "non-trivial = the case produced at least one identifier (decoded tx / block / header)",
